@@ -6,11 +6,12 @@ from twisted.names import dns
 from corr import _dns as D
 from corr._dns import hx, unhx
 
-HEADLINE = "TwistedProps.C32.decode_encode_message"
+HEADLINE = "TwistedProps.C32.message_round_trip"
 RULE = ("messages over every Record_* class (+UnknownRecord, payload-less headers, OPT), names drawn from a pool with shared "
         "suffixes, case variants, labels of 1/62/63/64/65/191/192/200/255/256 bytes, bytes >= 0xC0 and NULs inside labels, "
         "root, trailing/leading/double dots; field values at 0/max/out-of-range; maxSize in {0, 12..full size, 512, 4096, <12}; "
-        "large messages crossing offset 2^14; _EDNSMessage (version None/0/1, 12-bit rCode, sizes around 512) and _OPTHeader "
+        "every maxSize from 12 to the full size for a few messages (every cut point of the truncation clause); RDATA of 65535/65536 "
+        "bytes; large messages crossing offset 2^14; _EDNSMessage (version None/0/1, 12-bit rCode, sizes around 512) and _OPTHeader "
         "with options; mutated/truncated encodings through Message.fromStr; "
         "distinct = (op, record types present, compression used?, truncated?, outcome class)")
 ASSUMES = [
@@ -21,9 +22,14 @@ ASSUMES = [
     "a name is 'made of 1 to 63-byte labels' when it is b'' (root) or every b'.'-separated label has 1..63 bytes; the 255-octet "
     "bound on a whole name (RFC 1035 2.3.4) is not part of the statement and is not enforced by Twisted (reported, not judged)",
     "in range: flags 0/1, opCode/rCode < 16 (rCode < 4096 with EDNS), 16/32/48-bit fields, SOA refresh/retry/expire signed 32-bit "
-    "(struct 'l'), character-strings <= 255 bytes, RDATA < 64 KiB, A6: prefixLen <= 128, suffix without the prefixLen leading bits, "
+    "(struct 'l'), character-strings <= 255 bytes, RDATA < 64 KiB (theorem encode_succeeds: rdataMax, the RDATA's size with names "
+    "written in full, < 65536 - at 65536 bytes RRHeader.encode raises struct.error, theorem encode_fails_only_on_oversize_rdata), A6: prefixLen <= 128, suffix without the prefixLen leading bits, "
     "prefix name only when prefixLen > 0; UnknownRecord only for TYPEs without a Record_* class; no payload-less headers",
-    "the truncation clause is judged for maxSize >= 12 (a limit below the 12-byte header cannot be met by any message)",
+    "the truncation clause is judged for maxSize >= 12 (a limit below the 12-byte header cannot be met by any message); "
+    "'decodes to a prefix of the original records' is read as: Message.fromStr returns (no exception) the same header with TC set "
+    "and a flat proper prefix of questions ++ answers ++ authority ++ additional (a section is cut only if the later ones are empty)",
+    "message-level refusal (unrepresentable_name_refused_message) is stated for messages that are otherwise in range and whose "
+    "labels are non-empty; ValueError is what is raised unless an earlier record with >= 64 KiB of RDATA raises struct.error first",
     "dnspython is not installed: the independent decoder is lean/TwistedModel/Dns/Rfc1035.lean (written from the RFCs, shares only "
     "data types and the printer with the model of Twisted's codec), run through the driver on the bytes the real encoder produced "
     "- weaker independence than a third-party library (partial)",
@@ -31,13 +37,19 @@ ASSUMES = [
 TRUSTED = ["lean/TwistedModel/Dns/Rfc1035.lean as the independent reader (no theorem is stated about it)"]
 MANIFEST = {
     "text": "Lean theorems (TwistedProps/C32.lean) over the model of Name/Query/RRHeader/Record_*/Message encode+decode with the "
-            "compression dictionary: names of 1..63-byte labels round-trip at any offset with any dictionary state (pointer chains "
-            "strictly descend, so the visited-set check never fires), over-long labels are refused, field lists / records / whole "
-            "messages decode to themselves, truncated encodings stay within maxSize with TC set; model tied to dns.py by differential "
-            "runs over all record classes; round trip, refusal, truncation-prefix and an independent RFC 1035 reader checked on the "
-            "real code by the oracle.",
+            "compression dictionary. message_round_trip: every well-formed Message whose RDATA stay below 64 KiB IS encoded "
+            "(encode_succeeds; the only failure on well-formed input is struct.error on RDLENGTH, which does occur from 65536 bytes on - "
+            "encode_fails_on_oversize_rdata, encode_succeeds_iff), decodes to itself when within "
+            "its size limit (names of 1..63-byte labels round-trip at any offset with any dictionary state: pointer chains strictly "
+            "descend, so the visited-set check never fires), and when over the limit is cut to exactly maxSize bytes with TC set "
+            "that decode, without an exception, to the same header and a flat proper prefix of its questions and records (a "
+            "name/field/record cut anywhere raises EOFError and nothing else, which parseRecords/Message.decode catch). "
+            "unrepresentable_name_refused_message: a label over 63 bytes anywhere in a message makes toStr raise ValueError. "
+            "Model tied to dns.py by differential runs over all record classes and every cut point; round trip, refusal, "
+            "truncation-prefix and an independent RFC 1035 reader checked on the real code by the oracle.",
     "note": "trusts Lean kernel, the hand model of dns.py (differentially tied), the Lean RFC 1035 reader standing in for dnspython",
-    "technique": "Lean 4 proof (validity relation for compressed names + induction over fields/records/sections) + differential tie",
+    "technique": "Lean 4 proof (validity relation for compressed names + induction over fields/records/sections; EOFError-at-the-cut "
+                 "lemmas for every decoder; exact encoder outcome per item) + differential tie",
     "design_ref": "DESIGN.md §7 C32",
 }
 
@@ -280,6 +292,16 @@ def corpus():
             {"n": hx(b"example.com"), "t": 15, "c": 1, "ttl": 9, "pk": "k", "v": ["n10", "b" + hx(b"mail.example.com")]},
             {"n": hx(b"EXAMPLE.com"), "t": 15, "c": 1, "ttl": 9, "pk": "k", "v": ["n20", "b" + hx(b"mail2.example.com")]}],
             "ns": [], "ad": []}},
+        # RDLENGTH overflow: 65536 bytes of RDATA -> struct.error; 65535 is fine
+        {"op": "rt", "m": {"hdr": [5, 1, 0, 0, 0, 0, 0, 0, 0, 0, 0], "q": [], "an": [
+            {"n": hx(b"big.example"), "t": 10, "c": 1, "ttl": 0, "pk": "k", "v": ["b" + "00" * 65536]}], "ns": [], "ad": []}},
+        {"op": "rt", "m": {"hdr": [5, 1, 0, 0, 0, 0, 0, 0, 0, 0, 0], "q": [], "an": [
+            {"n": hx(b"big.example"), "t": 10, "c": 1, "ttl": 0, "pk": "k", "v": ["b" + "00" * 65535]}], "ns": [], "ad": []}},
+        # a 64-byte label inside an RDATA, after a record that encodes: ValueError from Message.toStr
+        {"op": "rt", "m": {"hdr": [6, 1, 0, 0, 0, 0, 0, 0, 0, 0, 0], "q": [[hx(b"example.com"), 15, 1]], "an": [
+            {"n": hx(b"example.com"), "t": 15, "c": 1, "ttl": 9, "pk": "k", "v": ["n10", "b" + hx(b"mail.example.com")]},
+            {"n": hx(b"example.com"), "t": 15, "c": 1, "ttl": 9, "pk": "k", "v": ["n20", "b" + hx(b"mx." + b"x" * 64 + b".example.com")]}],
+            "ns": [], "ad": []}},
         {"op": "opt", "hdr": [4096, 0, 0, 1], "opts": [[3, hx(b"nsid")], [10, hx(b"\x01" * 8)]]},
         {"op": "dec", "data": (b"\x00" * 5 + b"\x01" + b"\x00" * 6 + b"\xc0\x0c\x00\x01\x00\x01").hex()},
         {"op": "dec", "data": ""},
@@ -301,6 +323,20 @@ def generate(rng, tier):
             yield _dec_case(rng)
     for i in range(nbig):
         yield _rt_case(rng, big=True)
+    # the truncation clause at every cut point: maxSize = 12 .. full size, for a few well-formed messages
+    nall = 2 if tier == "quick" else 12
+    done = 0
+    for _ in range(200):
+        if done >= nall:
+            break
+        m = _message(rng)
+        inrange, names = D.msg_ok(m)
+        full = _full_size(m)
+        if not inrange or not all(D.labels_ok(n) for n in names) or full is None or not 40 <= full <= (160 if tier == "quick" else 400):
+            continue
+        done += 1
+        for size in range(12, full + 1):
+            yield {"op": "rt", "m": dict(m, hdr=m["hdr"][:8] + [size] + m["hdr"][9:])}
 
 
 # ------------------------------------------------------------------------------------------------
